@@ -29,6 +29,11 @@ func (w *Adv) forgeAuthor(mode, name string, time int, next []cid.Cid) (*entry.E
 		spec.Block, spec.ClockID = CopyIdentity(a), a.PublicKey
 	case "copied-block-and-key": // writer's identity block and key field; only the signature is the attacker's
 		spec.Block, spec.Key, spec.ClockID = CopyIdentity(a), a.PublicKey, a.PublicKey
+	case "copied-id-other-type": // writer's id in N's block, and a type for which no identity provider exists
+		b := CopyIdentity(n)
+		b.ID = a.ID
+		b.Type = "other"
+		spec.Block = b
 	case "resigned-id": // writer's id in N's block, identity signatures recomputed with N's keys
 		b := CopyIdentity(n)
 		b.ID = a.ID
@@ -55,7 +60,7 @@ func (w *Adv) forgeAuthor(mode, name string, time int, next []cid.Cid) (*entry.E
 	return e, err
 }
 
-var c03Modes = []string{"honest-nonwriter", "copied-id", "copied-block", "copied-block-and-key", "resigned-id"}
+var c03Modes = []string{"honest-nonwriter", "copied-id", "copied-block", "copied-block-and-key", "resigned-id", "copied-id-other-type"}
 
 type c03Case struct {
 	Writers    []string
@@ -232,7 +237,7 @@ func firstLine(s string) string {
 func init() {
 	explore.Register(&explore.CheckDef{
 		ID: "C03", Level: "exploration",
-		Rule:   "full cross product, each case on a fresh world: write list {[A],[A,B],none (creator default),[],[*]} x controller {ipfs, simple and orbitdb through a manifest, simple through the store constructor} x route {local write by the non-writer, manual sync, topic message, direct-channel exchange, ancestor of an authorised colluder's head} x forging mode {honest non-writer, writer's id copied into the attacker's identity block, writer's whole identity block with the attacker's key and signature, writer's block and key with the attacker's signature, writer's id with identity signatures recomputed by the attacker} x position {alone, after, before an honest head}. Oracle: the local write fails and changes nothing; after quiescence the forged entry is in no victim log or view and the honest entry is. Wildcard lists and controllers with which no database can be built are recorded, not judged. Non-trivial = cases with a forged author field (every mode but the honest non-writer).",
+		Rule:   "full cross product, each case on a fresh world: write list {[A],[A,B],none (creator default),[],[*]} x controller {ipfs, simple and orbitdb through a manifest, simple through the store constructor} x route {local write by the non-writer, manual sync, topic message, direct-channel exchange, ancestor of an authorised colluder's head} x forging mode {honest non-writer, writer's id copied into the attacker's identity block, writer's whole identity block with the attacker's key and signature, writer's block and key with the attacker's signature, writer's id with identity signatures recomputed by the attacker, writer's id in a block whose type has no registered identity provider} x position {alone, after, before an honest head}. Oracle: the local write fails and changes nothing; after quiescence the forged entry is in no victim log or view and the honest entry is. Wildcard lists and controllers with which no database can be built are recorded, not judged. Non-trivial = cases with a forged author field (every mode but the honest non-writer).",
 		Units:  func(tier string) []explore.Unit { return explore.ChunkUnits("c03", 16) },
 		Budget: func(tier string) float64 { return 300 },
 		RunUnit: func(c *explore.Ctx) {
